@@ -11,5 +11,31 @@ static const Reg regs[] = {
 	C01_SET("S.L3.g.f", L3, 1, 1, 0, true, false),
 	C01_MAP("M.L3.x.q", L3, 8, 4, 2, false, false),
 };
-static void leaf(const std::vector<std::string>& w) { puts("?leaf"); }
+// n1 40 <H> op...: a REAL BucketLimP4<uint64_t item, 4, hash-code-part getter>: a<hashCode> AddCrt (L = 4, probe = (hc >> 8) & 7), r<idx> Remove,
+// c Clear; prints hashCount, mShortHashes[0..hashCount-1], the pointer-state bits (memPoolIndex - 1) and whether the pointer is null
+static void leaf(const std::vector<std::string>& w)
+{
+	typedef internal::HashSetBucketItemTraits<HashSetItemTraits<uint64_t, MemManagerDefault>> BIT;
+	typedef internal::BucketLimP4<BIT, 4, MemPoolParams<>, true> Bk;
+	if (w.size() < 2 || w[0] != "40") { puts("?leaf"); return; }
+	MemManagerDefault mm;
+	static Bk::Params* params = new Bk::Params(mm);		// pools live for the whole run
+	Bk* b = new Bk();
+	for (size_t i = 2; i < w.size(); ++i)
+	{
+		char op = w[i][0]; size_t arg = w[i].size() > 1 ? size_t(std::stoull(w[i].substr(1))) : 0;
+		if (op == 'a') { if (!b->IsFull()) b->AddCrt(*params, [] (uint64_t* p) { *p = 7; }, arg, 4, (arg >> 8) & 7); }
+		else if (op == 'r')
+		{
+			auto bounds = b->GetBounds(*params);
+			if (arg < bounds.GetCount()) b->Remove(*params, bounds.GetBegin() + arg, [] (uint64_t& src, uint64_t& dst) { dst = src; });
+		}
+		else if (op == 'c') b->Clear(*params);
+	}
+	std::string out = std::to_string(Bk::hashCount);
+	for (size_t i = 0; i < Bk::hashCount; ++i) out += " " + std::to_string(unsigned(b->mShortHashes[i]));
+	out += " " + std::to_string(unsigned(b->mPtrState.GetState())) + " " + (b->mPtrState.GetPointer() == nullptr ? "0" : "1");
+	puts(out.c_str());
+	b->Clear(*params); delete b;
+}
 int main() { return c01_main(regs, sizeof(regs) / sizeof(regs[0]), &leaf); }
